@@ -287,6 +287,7 @@ func c03One(res *core.Result, cr string, t reflect.Type, st c03State, text strin
 		if empty && len(exps) == 0 && out.Nil {
 			res.Count("empty_value_silently_skipped")
 		}
+		res.Sample(cr+"/"+st.Name, 1, map[string]interface{}{"carrier": cr, "type": t.String(), "state": st.Name, "rules": text, "library_returned": trunc(out.String(), 200), "expected": expStrings(exps)})
 	}
 }
 
